@@ -1,4 +1,5 @@
 import Proofs.Arith
+import Proofs.Holding
 /-
   C07 — Conversions execute later, at the next graded block's rates, exactly.
   Property theorems only (helper lemmas are in Proofs/).
@@ -73,6 +74,17 @@ example : convert 100 5 1000 200 0 300 0 = some 666 := by decide
 example : convert 100 150 1000 200 150 300 400 = some 375 := by decide   -- PIP-10: min(200,150)/max(300,400)
 example : convert 100 5 9223372036854775807 2 0 1 0 = none := by decide  -- overflow
 
+/-- "…at the next graded block": the first rated block after a conversion was put in holding
+    walks every height since the previous rated block, so the conversion is dealt with in THAT
+    block (status written / replay mark / not computable) — it cannot be passed over and picked
+    up by a later one. Block-level statement, proved in `Proofs/Holding.lean`. -/
+theorem executes_at_first_rated_block {P : Params} {c : DB} {b : Block} {avgs : TMap} {s' : DB}
+    (hrun : blockTx P c b avgs c = .ok () s') (htx : b.height ≥ P.act.txConv) :
+    (∃ s1 s2 st, gradeAndRates P c b s1 = .ok st s2 ∧ st ≠ .cont true) ∨
+    ∃ rates, ∀ row ∈ c.holding, (c.mostRecentRatesBefore b.height).2 ≤ row.height → row.height < b.height →
+      Considered P b.height rates avgs c s' row.entry :=
+  block_considers_held hrun htx
+
 end Pegnet.C07
 
 #print axioms Pegnet.C07.convert_exact
@@ -80,3 +92,4 @@ end Pegnet.C07
 #print axioms Pegnet.C07.rates_used
 #print axioms Pegnet.C07.convert_value_nonincreasing
 #print axioms Pegnet.C07.convert_rejects
+#print axioms Pegnet.C07.executes_at_first_rated_block
